@@ -893,9 +893,22 @@ def unmodelled_token(text):
     return False
 
 
+def relative_origin_directive(text):
+    """a $ORIGIN whose argument is not an absolute name: the reader then works with a relative
+    current origin, which the model does not cover (it answers eUnmodelled)"""
+    toks = [t for t in _SPLIT.split(text) if t]
+    for i, t in enumerate(toks):
+        if t.upper() == b"$ORIGIN" and i + 1 < len(toks):
+            a = toks[i + 1]
+            if not a.endswith(b".") or a.endswith(b"\\."):
+                return True
+    return False
+
+
 def in_model(kind, case):
     if case[0] == 1:
-        return not unmodelled_token(case[4]) and all(c < 128 for c in case[4])
+        return (not unmodelled_token(case[4]) and all(c < 128 for c in case[4])
+                and not relative_origin_directive(case[4]))
     return case[0] in (2, 3, 4)
 
 
